@@ -23,7 +23,7 @@ def title_of(m):
     return t[:120].replace('|', '/')
 
 
-NR = 9
+NR = 10
 rows = {k: [] for k in range(1, NR + 1)}
 
 
@@ -63,7 +63,7 @@ for k, v in seeded.items():
 HDR = '| change | what it does (author\'s heading) | own property | first failing obligation / reason for indecision | also reported under |\n|---|---|---|---|---|\n'
 out = []
 out.append('## 13. Seeded changes: what catches what\n')
-out.append("""%d property-breaking changes were written by fresh sub-agents in nine rounds (two per claimed property in rounds 1-3; C19 once,
+out.append("""%d property-breaking changes were written by fresh sub-agents in ten rounds (two per claimed property in rounds 1-3; C19 once,
 after it was claimed; rounds 4-6 asked for SMALL slips - a changed operator or constant, a wrong variable, an off-by-one, a wrong string
 literal, a Cargo feature - round 4 for eight properties, round 5 for the other nine, round 6 for fifteen with the instruction to
 look at code the property depends on INDIRECTLY (lexers, the proc-macro crate, trait impls, constants, Cargo.toml), round 7 for all
@@ -71,7 +71,8 @@ seventeen with the instruction to look at DATA and METADATA (tables, constants, 
 productions, derive lists, Cargo features) and to put at least one change outside `preprocess.rs`, round 8 the same with RARELY EXECUTED code and boundary cases (error paths, empty
 groups, CR LF, escaped identifiers, names colliding with predefined ones, nesting of two features), round 9 with CONFIGURATIONS and entry
 points the tests never use (strip_comments, ignore_include, allow_incomplete, non-empty pre_defines, several include paths, the library-map
-and the file-based entry points, later calls on a thread, get_origin / Display / the unwrap macros)). Each sub-agent saw
+and the file-based entry points, later calls on a thread, get_origin / Display / the unwrap macros), round 10 with ARITHMETIC and
+positions (offsets, lengths, line numbers, range ends, comparison operators, byte versus character counts; one or two lines)). Each sub-agent saw
 only the text of one property, a scratch worktree of `/repo` under `/tmp`, and - from the second round on - one-line descriptions of the
 changes already made for that property, so as not to repeat them; nothing from `/verif`. Each change was confirmed here
 (`tools/validate_seeds.py`, scratch worktree outside `/repo` and `/verif`): the patch applies to `/repo` HEAD, the 120-test suite still
@@ -79,7 +80,7 @@ passes, the author's demonstration passes on the unchanged tree and fails with t
 `seeded/<id>/{patch.diff,demo.rs,meta.json}`; C17-5/6 by hand because their demonstrations need `--cfg sv_parser_verif`). Then EVERY
 claimed check was run against EVERY change (`tools/run_checks_on_seeds.py`, `VERIF_REPO`/`VERIF_OUT` pointing outside `/repo` and
 `/verif`); nothing is ever committed to `/repo`. `seeded/RESULTS.md` / `seeded/results.json` hold the full matrix of the last run. Ids:
-`Cxx-1/2` first round, `Cxx-3/4` second, `Cxx-5/6` third, `Cxx-7/8` fourth, `Cxx-9/10` fifth, `Cxx-11/12` sixth, `Cxx-13/14` seventh, `Cxx-15/16` eighth, `Cxx-17/18` ninth.
+`Cxx-1/2` first round, `Cxx-3/4` second, `Cxx-5/6` third, `Cxx-7/8` fourth, `Cxx-9/10` fifth, `Cxx-11/12` sixth, `Cxx-13/14` seventh, `Cxx-15/16` eighth, `Cxx-17/18` ninth, `Cxx-19/20` tenth.
 
 Result of the last run (own property of each change): **%d VIOLATION, %d undecided (exit 2), %d missed** of %d
 (%s). Undecided always means that the changed code left what the verifier front end or an
@@ -134,7 +135,7 @@ the remaining input must be threaded through every step of a production (C15-8: 
 `source_text_incomplete` parses the same text twice; now a failure of gvc.top for C15 and of the faithfulness lemma for C01);
 `first()` next to `last()` on the version stack (C13-7).
 Round 5 (small slips, the other nine properties; 6 of 18 first MISSED), round 6 (indirect dependencies; 12 of 30 first MISSED),
-round 7 (data and metadata; 8 of 34 first MISSED) and round 8 (rarely executed code and boundary cases; 13 of 34 first MISSED, two of them - C17-15/16, alternatives re-ordered so that a white space holding a directive is lexed twice - further instances of the listed finding K7, now undecided) and round 9 (configurations and entry points the tests never use; 9 of 30 first MISSED):
+round 7 (data and metadata; 8 of 34 first MISSED) and round 8 (rarely executed code and boundary cases; 13 of 34 first MISSED, two of them - C17-15/16, alternatives re-ordered so that a white space holding a directive is lexed twice - further instances of the listed finding K7, now undecided) and round 9 (configurations and entry points the tests never use; 9 of 30 first MISSED) and round 10 (arithmetic and positions; R10MISS first MISSED):
 see section 10.3e for the obligations they led to - gvc.kwsites, the dual obligation of gvc.pptotal, the C18 projection of
 `split_text`, once-initialised statics, the capacity of the recursion-flag table read from Cargo.toml, the span / line projections of
 the derive-generated `Locate` fold and `Locate::str` as premises of every arms-based property, conditional selection under C11,
